@@ -23,10 +23,7 @@ Ltac frame_finish H :=
   so_split; intros; try discriminate; reflexivity.
 
 (* ---------------- vectors ---------------- *)
-Ltac frame_tac_vec :=
-  let p := fresh "p" in let w := fresh "w" in let s := fresh "s" in
-  let w' := fresh "w'" in let s' := fresh "s'" in let H := fresh "H" in
-  intros p w s w' s' H;
+Ltac unfold_vec H :=
   cbv beta iota zeta delta [
     g_dup g_pop g_swap g_rot g_flush g_depth g_yank g_shove g_yankdup g_define
     vec_get vec_set vec_overlay vec_equal vec_length vec_fill vec_empty vec_map_top vec_rotate vec_append
@@ -37,8 +34,24 @@ Ltac frame_tac_vec :=
     ivec_set_insert ivec_sort_asc ivec_sort_desc
     fvec_id fvec_append fvec_get fvec_set fvec_arith fvec_add fvec_sub fvec_mul fvec_div fvec_mul_scalar fvec_empty
     fvec_equal fvec_length fvec_mean fvec_sum fvec_ones fvec_zeros fvec_rotate fvec_sine fvec_sort_asc fvec_sort_desc
-    push_int push_bool push_float push_code push_exec push_name rbind pure purep fst snd] in H;
-  frame_finish H.
+    push_int push_bool push_float push_code push_exec push_name rbind pure purep fst snd] in H.
+Ltac frame_tac_vec :=
+  let p := fresh "p" in let w := fresh "w" in let s := fresh "s" in
+  let w' := fresh "w'" in let s' := fresh "s'" in let H := fresh "H" in
+  intros p w s w' s' H; unfold_vec H; frame_finish H.
+
+Ltac unfold_listio H :=
+  cbv beta iota zeta delta [
+    list_remove list_get list_val list_bval list_ival list_fval
+    input_available input_get input_next input_read input_stack_depth output_flush output_stack_depth output_write
+    push_int push_bool push_float push_code push_exec push_name rbind pure purep fst snd] in H.
+Ltac unfold_graph H :=
+  cbv beta iota zeta delta [
+    graph_add graph_dup graph_node_add graph_node_state_switch graph_nodes graph_nodes_history
+    graph_node_get_state graph_node_history graph_print graph_print_diff graph_stack_depth graph_node_set_state
+    graph_edge_add graph_query graph_node_neighbors graph_node_predecessors graph_node_successors
+    graph_edge_get_weight graph_edge_history_gen graph_edge_history graph_edge_set_weight set_top
+    push_int push_bool push_float push_code push_exec push_name rbind pure purep fst snd] in H.
 
 (* evaluates the `filter` of vec_stack_family (string comparisons on literals only) *)
 Ltac open_vec_table :=
@@ -110,24 +123,12 @@ Section Families.
   Ltac frame_tac_list :=
     let p := fresh "p" in let w := fresh "w" in let s := fresh "s" in
     let w' := fresh "w'" in let s' := fresh "s'" in let H := fresh "H" in
-    intros p w s w' s' H;
-    cbv beta iota zeta delta [
-      list_remove list_get list_val list_bval list_ival list_fval
-      input_available input_get input_next input_read input_stack_depth output_flush output_stack_depth output_write
-      push_int push_bool push_float push_code push_exec push_name rbind pure purep fst snd] in H;
-    frame_finish H.
+    intros p w s w' s' H; unfold_listio H; frame_finish H.
 
   Ltac frame_tac_graph :=
     let p := fresh "p" in let w := fresh "w" in let s := fresh "s" in
     let w' := fresh "w'" in let s' := fresh "s'" in let H := fresh "H" in
-    intros p w s w' s' H;
-    cbv beta iota zeta delta [
-      graph_add graph_dup graph_node_add graph_node_state_switch graph_nodes graph_nodes_history
-      graph_node_get_state graph_node_history graph_print graph_print_diff graph_stack_depth graph_node_set_state
-      graph_edge_add graph_query graph_node_neighbors graph_node_predecessors graph_node_successors
-      graph_edge_get_weight graph_edge_history_gen graph_edge_history graph_edge_set_weight set_top
-      push_int push_bool push_float push_code push_exec push_name rbind pure purep fst snd] in H;
-    frame_finish H.
+    intros p w s w' s' H; unfold_graph H; frame_finish H.
 
   Ltac table_tac tac :=
     repeat (apply Forall_cons; [eexists; split; [reflexivity|]; cbn [snd]; tac|]);
